@@ -170,6 +170,13 @@ func (o *OpAdd) Do(ctx context.Context, s *Service) error {
 			Bs:       match.NewBindings(),
 		}
 	}
+	if o.Machine.State.Bs == nil {
+		// A state with a node and no bindings: {"node":"start"}.
+		o.Machine.State.Bs = match.NewBindings()
+	}
+	if o.Machine.SpecSource == nil {
+		return fmt.Errorf("no spec given")
+	}
 	// get spec and set default values if they are not provided by
 	// initial bindings
 	specter, err := s.GetSpec(ctx, o.Machine.SpecSource)
